@@ -219,6 +219,12 @@ class StreamingHandler(AsyncCallbackHandler, AsyncIterator):
             log.info(f"{self.uid[0:3]} - CHUNK after finish: {chunk}")
             return
 
+        if self.enable_buffer:
+            # While buffering, the content is only recorded, in the order it arrives. The
+            # expected pattern applies to the whole content, once buffering is disabled.
+            await self._process(chunk or "")
+            return
+
         # Only after we get the expected prefix we remove it and start streaming
         if self.prefix:
             if chunk is not None:
